@@ -84,6 +84,23 @@ func resolveTarget(target string, bs map[string]interface{}) string {
 // none).  Candidates for a branch come from the real matcher (its
 // properties are checked separately).
 func RefStep(a *ASpec, node string, bs map[string]interface{}, pending interface{}) []StepResult {
+	return RefStepTok(a, node, bs, pending, ErrToken)
+}
+
+// TokenFrom extracts the error text the real step produced (if any), to
+// be used as the model's error text: the text is opaque, but bindings
+// that already carry an earlier error text are matched against it.
+func TokenFrom(stride *core.Stride) string {
+	if stride != nil && stride.To != nil {
+		if s, ok := stride.To.Bs["actionError"].(string); ok && s != "" {
+			return s
+		}
+	}
+	return ErrToken
+}
+
+// RefStepTok is RefStep with a given text for action errors.
+func RefStepTok(a *ASpec, node string, bs map[string]interface{}, pending interface{}, tok string) []StepResult {
 	n, have := a.lookup(node)
 	if !have {
 		return []StepResult{{Err: true, Route: "unknown-node"}}
@@ -121,8 +138,8 @@ func RefStep(a *ASpec, node string, bs map[string]interface{}, pending interface
 			route = "action-null"
 		case "fail":
 			cur = jsongen.CopyMap(orig)
-			cur["actionError"] = ErrToken
-			cur["error"] = ErrToken
+			cur["actionError"] = tok
+			cur["error"] = tok
 			route = "action-failed"
 			if !a.ActionErrorBranches {
 				if a.ActionErrorNode == "" {
